@@ -20,7 +20,62 @@ def objJson (e : Pose) (o : Obj) : Json :=
   let m := o.toMap e
   let p := egoPosMap e m
   Json.mkObj [("x", jRat m.box.center.x), ("y", jRat m.box.center.y), ("z", jRat m.box.center.z),
-    ("tau", jRat m.tau), ("ego_x", jRat p.x), ("ego_y", jRat p.y)]
+    ("tau", jRat m.tau), ("ego_x", jRat p.x), ("ego_y", jRat p.y), ("ego_z", jRat (toEgo3 e m.box.center).z),
+    ("bev2_ego", jRat (bevDist2Ego o)), ("bev2_map", jRat (bevDist2Map e m))]
+
+/-! the filter criteria (optional part of a request): `"filter": {"mgr": params, "crit": params, "tags": [tag…]}`,
+one tag per ground truth; parameters spelled as in the C10 protocol, `null`/absent = `None` -/
+
+def optField (j : Json) (k : String) : Option Json :=
+  match j.getObjVal? k with
+  | .ok .null => none
+  | .ok v => some v
+  | .error _ => none
+
+def optList {α} (j : Json) (k : String) (f : Json → Except String α) : Except String (Option (List α)) :=
+  match optField j k with
+  | none => pure none
+  | some v => do
+    let a ← v.getArr?
+    let l ← a.toList.mapM f
+    pure (some l)
+
+def getParams (j : Json) : Except String Filter.Params := do
+  pure { isGt := ← getBool j "is_gt",
+         targets := ← optList j "targets" (·.getStr?),
+         ignoreAttrs := ← optList j "ignore" (·.getStr?),
+         maxX := ← optList j "max_x" asRat, maxY := ← optList j "max_y" asRat,
+         maxDist := ← optList j "max_dist" asRat, minDist := ← optList j "min_dist" asRat,
+         conf := ← optList j "conf" asRat,
+         minPts := ← optList j "min_pts" (·.getInt?),
+         uuids := ← optList j "uuids" (·.getStr?),
+         hasTransforms := true }
+
+def getTag (j : Json) : Except String Tag := do
+  let pc ← match optField j "pc" with
+    | none => pure none
+    | some v => do pure (some (← v.getInt?))
+  let uuid ← match optField j "uuid" with
+    | none => pure none
+    | some v => do pure (some (← v.getStr?))
+  pure { id := ← getNat j "id", label := ← getStr j "label", name := ← getStr j "name",
+         attributes := ← getStrList j "attrs", score := ← getRat j "score", pcNum := pc, uuid := uuid }
+
+def keptJson (r : Except Err (List Nat)) : Json :=
+  match r with
+  | .ok ids => Json.mkObj [("ok", jList jNat ids)]
+  | .error k => Json.mkObj [("err", Json.str k)]
+
+def filterJson (e : Pose) (gts : List Obj) (j : Json) : Except String (List (String × Json)) :=
+  match optField j "filter" with
+  | none => pure []
+  | some f => do
+    let pm ← getParams (← f.getObjVal? "mgr")
+    let pc ← getParams (← f.getObjVal? "crit")
+    let tags ← (← getArr f "tags").toList.mapM getTag
+    let os : List Tagged := (tags.zip gts).map (fun p => ⟨p.1, p.2⟩)
+    pure [("gt_kept_ego", keptJson (keptEgo pm pc os)),
+          ("gt_kept_map", keptJson (keptMap e pm pc (os.map (Tagged.toMap e))))]
 
 def handle : Json → Except String Json := fun j => do
   let pj ← j.getObjVal? "pose"
@@ -29,14 +84,29 @@ def handle : Json → Except String Json := fun j => do
   let e : Pose := { rot := ⟨c, s⟩, tau := tau, t := ⟨tx, ty, tz⟩ }
   let ests ← (← getArr j "ests").toList.mapM getObj
   let gts ← (← getArr j "gts").toList.mapM getObj
-  let te := tableEgo ests gts
-  let tm := tableMap e (ests.map (Obj.toMap e)) (gts.map (Obj.toMap e))
-  pure (Json.mkObj [
+  let flt ← filterJson e gts j
+  -- score rows: the whole tables, or (large scenes) only the pairs `[i, j]` listed under "pairs"
+  let rows ← match optField j "pairs" with
+    | none =>
+      pure [("ego", jList (jList rowJson) (tableEgo ests gts)),
+            ("map", jList (jList rowJson) (tableMap e (ests.map (Obj.toMap e)) (gts.map (Obj.toMap e))))]
+    | some pj => do
+      let ps ← (← pj.getArr?).toList.mapM (fun x => do
+        let a ← x.getArr?
+        match a.toList with
+        | [i, k] => pure ((← i.getNat?), (← k.getNat?))
+        | _ => throw "bad pair")
+      let sel ← ps.mapM (fun (p : Nat × Nat) =>
+        match ests[p.1]?, gts[p.2]? with
+        | some a, some g => pure (a, g)
+        | _, _ => throw "pair index out of range")
+      pure [("ego_rows", jList (fun (p : Obj × Obj) => rowJson (scoreRowEgo p.1 p.2)) sel),
+            ("map_rows", jList (fun (p : Obj × Obj) => rowJson (scoreRowMap e (p.1.toMap e) (p.2.toMap e))) sel)]
+  pure (Json.mkObj (flt ++ rows ++ [
     ("ests", jList (objJson e) ests), ("gts", jList (objJson e) gts),
-    ("ego", jList (jList rowJson) te), ("map", jList (jList rowJson) tm),
     ("same_gts_ego", jList (jList Json.bool) (sameTable gts)),
     ("same_gts_map", jList (jList Json.bool) (sameTable (gts.map (Obj.toMap e)))),
     ("same_ests_ego", jList (jList Json.bool) (sameTable ests)),
-    ("same_ests_map", jList (jList Json.bool) (sameTable (ests.map (Obj.toMap e))))])
+    ("same_ests_map", jList (jList Json.bool) (sameTable (ests.map (Obj.toMap e))))]))
 
 end PEval.Driver.C07
